@@ -371,15 +371,16 @@ class virtualNode(pb.Root):
         """
         yield self._unlock_reg_qubits(self._q_num_to_obj(qubitNum))
 
-    def remote_add_register(self, maxQubits=10):
+    def remote_add_register(self, maxQubits=10, ignore_max_registers=False):
         """
         Adds a new register to the node..
 
         Arguments:
         maxQubits	maximum number of qubits to use in the default engine
+        ignore_max_registers	skip the register limit, used for the temporary register of a merge
         """
         # TODO We have two methods that do the same thing, should deprecate one of them
-        return self.remote_new_register(maxQubits=maxQubits)
+        return self.remote_new_register(maxQubits=maxQubits, ignore_max_registers=ignore_max_registers)
 
     def get_new_reg_num(self):
         """
@@ -389,17 +390,18 @@ class virtualNode(pb.Root):
         self._next_reg_num += 1
         return reg_num
 
-    def remote_new_register(self, maxQubits=10):
+    def remote_new_register(self, maxQubits=10, ignore_max_registers=False):
         """
         Initialize a local register. Right now, this simple creates a register according to the simple engine backend
         using qubit.
 
         Arguments:
         maxQubits	maximum number of qubits to use in the default engine (default 10)
+        ignore_max_registers	skip the register limit: a merge replaces two registers by one
         """
 
         # Make sure that reg numbers are assigned correctly
-        if self.numRegs >= self.maxRegs:
+        if self.numRegs >= self.maxRegs and not ignore_max_registers:
             self._logger.error("Maximum number of registers reached.")
             raise quantumError("Maximum number of registers reached.")
 
@@ -1622,7 +1624,7 @@ class virtualQubit(pb.Referenceable):
                     )
 
                     # Create a new local register
-                    newLocalReg = self.virtNode.root.remote_add_register()
+                    newLocalReg = self.virtNode.root.remote_add_register(ignore_max_registers=True)
 
                     # Fetch the detail of the two registers from remote
                     (fNum, fNode) = yield call_method(self.simQubit, "get_details")
